@@ -31,6 +31,11 @@ def menu(nums):
                 evs.append(("gf", n, new))
         for new in (n + 1, n + 3, 2):
             evs.append(("rs", n, new))
+    for n in nums:
+        # SequenceReset whose NewSeqNo is unusable (zero, not a number, missing): never honoured
+        for bad in ("0", "abc", "none"):
+            evs.append(("rsbad", n, bad))
+        evs.append(("gfbad", n, "abc"))
     # de-duplicate keeping order
     seen, out = set(), []
     for e in evs:
@@ -59,6 +64,11 @@ def frame_of(ev, S, T, uid):
         return refs.frame("4", n, T, S, [(123, "Y"), (36, ev[2])])
     if k == "rs":
         return refs.frame("4", n, T, S, [(36, ev[2])])
+    if k in ("rsbad", "gfbad"):
+        body = [(123, "Y")] if k == "gfbad" else []
+        if ev[2] != "none":
+            body.append((36, ev[2]))
+        return refs.frame("4", n, T, S, body)
     raise ValueError(ev)
 
 
@@ -154,6 +164,8 @@ class Sim:
                 ok = True
             if kind == "rs" and ev[2] > E and E2 == ev[2]:
                 ok = True
+            if kind in ("rsbad", "gfbad"):
+                return self._v("counter_moved", f"{kind}:unusable_newseqno", "the expected number changes only by one per accepted message or to the NewSeqNo of an honoured forward SequenceReset", ev, det)
             if not ok:
                 if kind in ("gf", "rs"):
                     how = "backward" if E2 < E else ("not_newseqno" if E2 != ev[2] else f"numbered_{rel(n, E)}")
@@ -164,7 +176,7 @@ class Sim:
         # 3. ResendRequest discipline
         if self.outstanding and E2 > self.outstanding[1]:
             pass
-        if n > E and kind != "rs" and not self.dead:
+        if n > E and kind not in ("rs", "rsbad", "gfbad") and not self.dead:
             out = self.outstanding
             if out is not None and E <= out[1]:
                 # the gap is closed only when the message that revealed it has been processed as well: until
@@ -182,7 +194,7 @@ class Sim:
             # Reset-mode frame numbered above expectation: demand nothing, but remember a request that was sent
             if self.outstanding is None or E >= self.outstanding[1]:
                 self.outstanding = (E, n)
-        elif rrs and n <= E and not (kind == "rs"):
+        elif rrs and n <= E and kind not in ("rs", "rsbad", "gfbad"):
             return self._v("resend_request_spurious", f"{kind}:{ctxs}", "a ResendRequest is triggered by a message numbered above the expected one", ev, det)
         if self.outstanding and E2 > self.outstanding[1]:
             self.outstanding = None
